@@ -42,6 +42,45 @@ pub enum Instr {
     /// group_by(x%2) + exact tumbling count window of 2 + sum (order dependent: only generated on
     /// fully sequential configurations)
     CountWin,
+    // ---- breadth of the public API (each is a fixed small pipeline, see `unary`) ----
+    /// rich_map with a stateless closure
+    RichMap,
+    RichFilterMap,
+    RichFlatMap,
+    /// map(x -> [x, x+5]).flatten()
+    Flatten,
+    Inspect,
+    MapMemo,
+    MapMemoBy,
+    /// map(x % 3).unique_assoc()
+    UniqueAssoc,
+    /// key_by(x%2) . filter . filter_map . flat_map . inspect . drop_key
+    KeyedPipe,
+    /// key_by(x%2) . rich_filter_map . rich_flat_map . map(vec) . flatten . drop_key . map_memo
+    KeyedRich,
+    /// key_by(x%2).shuffle()
+    KeyedShuffle,
+    /// repartition_by(Unlimited, x % 5)
+    RepartBy,
+    /// add_timestamps (no watermarks) . drop_timestamps
+    Stamp,
+    /// add_timestamps (no watermarks) . shuffle . drop_timestamps
+    StampShuffle,
+    /// key_by(x%2).add_timestamps.drop_timestamps.drop_key
+    KeyedStamp,
+    /// window_all(tumbling count window of 2).count()
+    WinAllCount,
+    /// a.key_by(x%2).merge(b.key_by(x%2)).drop_key()
+    KeyedMerge,
+    /// the other sinks: collect_count, collect_vec_all, collect::<VecDeque>, collect_all::<VecDeque>,
+    /// collect_channel, collect_channel_parallel, for_each
+    SinkCount,
+    SinkVecAll,
+    SinkCollect,
+    SinkCollectAll,
+    SinkChan,
+    SinkChanPar,
+    SinkForEach,
     Dup,
     Swap,
     Merge,
@@ -55,12 +94,26 @@ pub enum Instr {
 }
 
 impl Instr {
+    pub fn is_sink(&self) -> bool {
+        self.arity() == (1, 0)
+    }
+    /// does this sink publish on every host?
+    pub fn on_all_hosts(&self) -> bool {
+        matches!(self, Instr::SinkVecAll | Instr::SinkCollectAll)
+    }
     pub fn arity(&self) -> (usize, usize) {
         match self {
             Instr::Dup => (1, 2),
             Instr::Swap => (2, 2),
-            Instr::Merge | Instr::Join(..) => (2, 1),
-            Instr::Sink => (1, 0),
+            Instr::Merge | Instr::KeyedMerge | Instr::Join(..) => (2, 1),
+            Instr::Sink
+            | Instr::SinkCount
+            | Instr::SinkVecAll
+            | Instr::SinkCollect
+            | Instr::SinkCollectAll
+            | Instr::SinkChan
+            | Instr::SinkChanPar
+            | Instr::SinkForEach => (1, 0),
             _ => (1, 1),
         }
     }
@@ -87,6 +140,26 @@ fn f_flat(x: i64) -> Vec<i64> {
         vec![x, x + 10]
     } else {
         vec![]
+    }
+}
+fn f_rfm(x: i64) -> Option<i64> {
+    if x % 3 != 1 {
+        Some(x * 2)
+    } else {
+        None
+    }
+}
+fn f_rflat(x: i64) -> Vec<i64> {
+    vec![x; (x.rem_euclid(3)) as usize]
+}
+fn f_memo(x: i64) -> i64 {
+    (x * x) % 11
+}
+fn f_keyed_pipe(v: i64) -> Vec<i64> {
+    if v % 3 == 0 {
+        vec![]
+    } else {
+        vec![v + 1, v + 21]
     }
 }
 fn enc_kv(k: i64, v: i64) -> i64 {
@@ -166,6 +239,47 @@ fn unary<O: Operator<Out = i64> + 'static>(s: Stream<O>, i: &Instr) -> DS<i64> {
                 .unkey()
                 .map(|(k, v)| enc_kv(k, v)),
         ),
+        Instr::RichMap => erase(s.rich_map(|x| x + 2)),
+        Instr::RichFilterMap => erase(s.rich_filter_map(f_rfm)),
+        Instr::RichFlatMap => erase(s.rich_flat_map(f_rflat)),
+        Instr::Flatten => erase(s.map(|x| vec![x, x + 5]).flatten()),
+        Instr::Inspect => erase(s.inspect(|_| {})),
+        Instr::MapMemo => erase(s.map_memo(f_memo, 2)),
+        Instr::MapMemoBy => erase(s.map_memo_by(|x| (x % 4) * 7, |x| x % 4, 2)),
+        Instr::UniqueAssoc => erase(s.map(|x| x % 3).unique_assoc()),
+        Instr::KeyedPipe => erase(
+            s.key_by(|x: &i64| x % 2)
+                .filter(|(_, v)| v % 3 != 0)
+                .filter_map(|(_, v)| Some(v + 1))
+                .flat_map(|(_, v)| vec![v, v + 20])
+                .inspect(|_| {})
+                .drop_key(),
+        ),
+        Instr::KeyedRich => erase(
+            s.key_by(|x: &i64| x % 2)
+                .rich_filter_map(|(_, v)| f_rfm(v))
+                .rich_flat_map(|(_, v)| f_rflat(v))
+                .map(|(_, v)| vec![v, v + 5])
+                .flatten()
+                .drop_key()
+                .map_memo(f_memo, 2),
+        ),
+        Instr::KeyedShuffle => erase(s.key_by(|x: &i64| x % 2).shuffle().map(|(_, v)| v)),
+        Instr::RepartBy => erase(s.repartition_by(Replication::Unlimited, |x: &i64| x.rem_euclid(5) as u64)),
+        Instr::Stamp => erase(s.add_timestamps(|x| *x, |_, _| None).drop_timestamps()),
+        Instr::StampShuffle => erase(s.add_timestamps(|x| *x, |_, _| None).shuffle().drop_timestamps()),
+        Instr::KeyedStamp => erase(
+            s.key_by(|x: &i64| x % 2)
+                .add_timestamps(|(_, v)| *v, |_, _| None)
+                .drop_timestamps()
+                .drop_key(),
+        ),
+        Instr::WinAllCount => erase(
+            s.window_all(renoir::operator::window::CountWindow::tumbling(2))
+                .count()
+                .drop_key()
+                .map(|c| c as i64),
+        ),
         Instr::Replay(rounds, body) => {
             let body = body.clone();
             let rounds = *rounds;
@@ -244,18 +358,64 @@ fn join(a: DS<i64>, b: DS<i64>, kind: u8, ship: u8, local: u8) -> DS<i64> {
     }
 }
 
+/// Handle on what a sink published.
+pub enum OutH {
+    Vec(StreamOutput<Vec<i64>>),
+    Count(StreamOutput<usize>),
+    Deque(StreamOutput<std::collections::VecDeque<i64>>),
+    Chan(renoir::verif::flume_shim::Receiver<i64>),
+    Shared(std::sync::Arc<std::sync::Mutex<Vec<i64>>>),
+}
+
+impl OutH {
+    pub fn get(self) -> Option<Vec<i64>> {
+        match self {
+            OutH::Vec(o) => o.get(),
+            OutH::Count(o) => o.get().map(|n| vec![n as i64]),
+            OutH::Deque(o) => o.get().map(|d| d.into_iter().collect()),
+            OutH::Chan(rx) => {
+                let mut v = vec![];
+                while let Ok(x) = rx.try_recv() {
+                    v.push(x);
+                }
+                Some(v)
+            }
+            OutH::Shared(m) => Some(m.lock().unwrap().clone()),
+        }
+    }
+}
+
+fn sink(s: DS<i64>, i: &Instr) -> OutH {
+    match i {
+        Instr::Sink => OutH::Vec(s.collect_vec()),
+        Instr::SinkCount => OutH::Count(s.collect_count()),
+        Instr::SinkVecAll => OutH::Vec(s.collect_vec_all()),
+        Instr::SinkCollect => OutH::Deque(s.collect()),
+        Instr::SinkCollectAll => OutH::Deque(s.collect_all()),
+        Instr::SinkChan => OutH::Chan(s.collect_channel()),
+        Instr::SinkChanPar => OutH::Chan(s.collect_channel_parallel()),
+        Instr::SinkForEach => {
+            let m = std::sync::Arc::new(std::sync::Mutex::new(vec![]));
+            let m2 = m.clone();
+            s.for_each(move |x| m2.lock().unwrap().push(x));
+            OutH::Shared(m)
+        }
+        other => panic!("not a sink: {:?}", other),
+    }
+}
+
 /// Build the job for `prog` over the given source stream; returns one output handle per sink, in
 /// program order (streams left on the stack at the end are sunk too).
-pub fn build(src: DS<i64>, prog: &Program) -> Vec<StreamOutput<Vec<i64>>> {
+pub fn build(src: DS<i64>, prog: &Program) -> Vec<OutH> {
     build_inner(src, prog, false)
 }
 
 /// Like `build`, with a probe (id = instruction index) on every stream an instruction produces.
-pub fn build_probed(src: DS<i64>, prog: &Program) -> Vec<StreamOutput<Vec<i64>>> {
+pub fn build_probed(src: DS<i64>, prog: &Program) -> Vec<OutH> {
     build_inner(src, prog, true)
 }
 
-fn build_inner(src: DS<i64>, prog: &Program, probes: bool) -> Vec<StreamOutput<Vec<i64>>> {
+fn build_inner(src: DS<i64>, prog: &Program, probes: bool) -> Vec<OutH> {
     let mut stack: Vec<DS<i64>> = vec![if probes { erase(probe(src, 1000)) } else { src }];
     let mut pc = 0u32;
     let mut tag = |s: DS<i64>, pc: u32| -> DS<i64> {
@@ -293,9 +453,15 @@ fn build_inner(src: DS<i64>, prog: &Program, probes: bool) -> Vec<StreamOutput<V
                 let a = stack.pop().unwrap();
                 stack.push(tag(join(a, b, *kind, *ship, *local), pc * 10));
             }
-            Instr::Sink => {
+            Instr::KeyedMerge => {
+                let b = stack.pop().unwrap();
+                let a = stack.pop().unwrap();
+                let m = a.key_by(|x: &i64| x % 2).merge(b.key_by(|x: &i64| x % 2)).drop_key();
+                stack.push(tag(erase(m), pc * 10));
+            }
+            k if k.is_sink() => {
                 let s = stack.pop().unwrap();
-                outs.push(s.collect_vec());
+                outs.push(sink(s, k));
             }
             u => {
                 let s = stack.pop().unwrap();
@@ -304,7 +470,7 @@ fn build_inner(src: DS<i64>, prog: &Program, probes: bool) -> Vec<StreamOutput<V
         }
     }
     while let Some(s) = stack.pop() {
-        outs.push(s.collect_vec());
+        outs.push(OutH::Vec(s.collect_vec()));
     }
     outs
 }
@@ -337,6 +503,26 @@ fn ref_unary(v: Vec<i64>, i: &Instr) -> Vec<i64> {
             }
         }
         Instr::KeyedMap => v.into_iter().map(|x| x + 1).collect(),
+        Instr::RichMap => v.into_iter().map(|x| x + 2).collect(),
+        Instr::RichFilterMap => v.into_iter().filter_map(f_rfm).collect(),
+        Instr::RichFlatMap => v.into_iter().flat_map(f_rflat).collect(),
+        Instr::Flatten => v.into_iter().flat_map(|x| vec![x, x + 5]).collect(),
+        Instr::Inspect | Instr::KeyedShuffle | Instr::RepartBy | Instr::Stamp | Instr::StampShuffle | Instr::KeyedStamp => v,
+        Instr::MapMemo => v.into_iter().map(f_memo).collect(),
+        Instr::MapMemoBy => v.into_iter().map(|x| (x % 4) * 7).collect(),
+        Instr::UniqueAssoc => {
+            let set: std::collections::BTreeSet<i64> = v.into_iter().map(|x| x % 3).collect();
+            set.into_iter().collect()
+        }
+        Instr::KeyedPipe => v.into_iter().flat_map(f_keyed_pipe).collect(),
+        Instr::KeyedRich => v
+            .into_iter()
+            .filter_map(f_rfm)
+            .flat_map(f_rflat)
+            .flat_map(|x| vec![x, x + 5])
+            .map(f_memo)
+            .collect(),
+        Instr::WinAllCount => vec![2; v.len() / 2],
         Instr::CountWin => {
             let mut out = vec![];
             for k in 0..2 {
@@ -414,7 +600,7 @@ pub fn reference(input: &[i64], prog: &Program) -> Vec<Vec<i64>> {
                 stack.push(b);
                 stack.push(a);
             }
-            Instr::Merge => {
+            Instr::Merge | Instr::KeyedMerge => {
                 let b = stack.pop().unwrap();
                 let mut a = stack.pop().unwrap();
                 a.extend(b);
@@ -427,7 +613,11 @@ pub fn reference(input: &[i64], prog: &Program) -> Vec<Vec<i64>> {
                 let kind = if *ship == 1 && *kind == 2 { 1 } else { *kind };
                 stack.push(ref_join(&a, &b, kind));
             }
-            Instr::Sink => {
+            Instr::SinkCount => {
+                let s = stack.pop().unwrap();
+                outs.push(vec![s.len() as i64]);
+            }
+            k if k.is_sink() => {
                 let mut s = stack.pop().unwrap();
                 s.sort();
                 outs.push(s);
@@ -459,6 +649,19 @@ pub enum Rep {
 fn rep_unary(i: &Instr, r: Rep) -> Option<Rep> {
     Some(match i {
         Instr::Map | Instr::Filter | Instr::FlatMap | Instr::KeyedMap | Instr::PanicAt(..) => r,
+        Instr::RichMap
+        | Instr::RichFilterMap
+        | Instr::RichFlatMap
+        | Instr::Flatten
+        | Instr::Inspect
+        | Instr::MapMemo
+        | Instr::MapMemoBy
+        | Instr::KeyedPipe
+        | Instr::KeyedRich
+        | Instr::Stamp
+        | Instr::KeyedStamp => r,
+        Instr::UniqueAssoc | Instr::KeyedShuffle | Instr::RepartBy | Instr::StampShuffle => Rep::Unl,
+        Instr::WinAllCount => Rep::One,
         Instr::Shuffle
         | Instr::GbSum
         | Instr::GbReduceMax
@@ -515,7 +718,7 @@ pub fn well_formed(prog: &Program, src: Rep) -> Option<usize> {
                 }
                 st.swap(n - 1, n - 2);
             }
-            Instr::Merge => {
+            Instr::Merge | Instr::KeyedMerge => {
                 let b = st.pop()?;
                 let a = st.pop()?;
                 // a Y connection without shuffle requires equal parallelism
@@ -533,7 +736,7 @@ pub fn well_formed(prog: &Program, src: Rep) -> Option<usize> {
                     st.push(a);
                 }
             }
-            Instr::Sink => {
+            k if k.is_sink() => {
                 st.pop()?;
             }
             u => {
